@@ -38,14 +38,20 @@ theorem paramNamesOk_strip (f : String) (us : List FnArg) (sig : Sig) :
     exact providedName_strip a
   simp only [h1, namesKept_strip, List.length_map]
 
+/-- the receiver's reference part for a dependency parameter of the given type -/
+def refOf : Ty → Option (Option String)
+  | .ref_ lt _ _ => some lt
+  | _ => none
+
 /-- the receiver-rewriting step for fn / mod inputs -/
 theorem generateParams_selfRef {deps : FnDeps} {inputs : List FnArg} {itrail : Bool}
     {ins : List FnArg} {tr : Bool}
     (h : generateParams .selfRef deps inputs itrail = .ok (ins, tr)) :
     (deps = .noDeps ∧ ins = .recv [] (some none) false none :: inputs) ∨
     (deps ≠ .noDeps ∧ inputs = [] ∧ ins = []) ∨
-    (deps ≠ .noDeps ∧ ∃ a pt ty rest r, inputs = .typed a pt ty :: rest ∧ ins = .recv [] r false none :: rest) := by
-  unfold generateParams at h
+    (deps ≠ .noDeps ∧ ∃ a pt ty rest, inputs = .typed a pt ty :: rest ∧
+      ins = .recv [] (refOf ty) false none :: rest) := by
+  unfold generateParams rewriteFirst insertImplRecv at h
   cases deps with
   | noDeps =>
     simp [genFirstReceiver, selfReceiverArg] at h
@@ -59,8 +65,8 @@ theorem generateParams_selfRef {deps : FnDeps} {inputs : List FnArg} {itrail : B
       cases x with
       | recv => simp at h
       | typed a pt ty =>
-        refine ⟨by simp, a, pt, ty, rest, ?_⟩
-        cases ty <;> simp [genFirstReceiver, selfReceiverArg] at h <;> exact ⟨_, rfl, h.1.symm⟩
+        refine ⟨by simp, a, pt, ty, rest, rfl, ?_⟩
+        cases ty <;> simp [genFirstReceiver, selfReceiverArg] at h <;> simp [refOf, h.1]
   | concrete cty =>
     right
     cases inputs with
@@ -70,8 +76,8 @@ theorem generateParams_selfRef {deps : FnDeps} {inputs : List FnArg} {itrail : B
       cases x with
       | recv => simp at h
       | typed a pt ty =>
-        refine ⟨by simp, a, pt, ty, rest, ?_⟩
-        cases ty <;> simp [genFirstReceiver, selfReceiverArg] at h <;> exact ⟨_, rfl, h.1.symm⟩
+        refine ⟨by simp, a, pt, ty, rest, rfl, ?_⟩
+        cases ty <;> simp [genFirstReceiver, selfReceiverArg] at h <;> simp [refOf, h.1]
 
 /-- the method generated for one function of an fn / mod input -/
 structure FnModeSpec (opts : Opts) (sig : Sig) (tf : TraitFn) : Prop where
@@ -84,6 +90,8 @@ structure FnModeSpec (opts : Opts) (sig : Sig) (tf : TraitFn) : Prop where
   /-- a receiver, then the renamed user parameters -/
   inputs : ∃ r, tf.sig.inputs = .recv [] r false none ::
       fixParams sig.ident ((sig.userParams opts.noDepsValue).map FnArg.stripAttrs)
+  /-- `&self` / `&'a self` for a dependency taken by reference, `self` for one taken by value -/
+  recv : tf.sig.inputs.head? = expectedReceiver opts.noDepsValue sig
 
 theorem fnModeSpec {opts : Opts} {sig : Sig} {tg tg' : TraitGenerics} {tf : TraitFn}
     (h : analyzeFn .selfRef opts sig tg = .ok (tf, tg')) : FnModeSpec opts sig tf := by
@@ -91,22 +99,27 @@ theorem fnModeSpec {opts : Opts} {sig : Sig} {tg tg' : TraitGenerics} {tf : Trai
   cases hn : opts.noDepsValue
   · -- with a dependency parameter
     obtain ⟨hne, a, pt, ty, rest, hin⟩ := analyzeFnDeps_deps hd hn
-    rcases generateParams_selfRef hg with ⟨hnd, _⟩ | ⟨_, hnil, _⟩ | ⟨_, a', pt', ty', rest', r, hin', rfl⟩
+    rcases generateParams_selfRef hg with ⟨hnd, _⟩ | ⟨_, hnil, _⟩ | ⟨_, a', pt', ty', rest', hin', rfl⟩
     · exact absurd hnd hne
     · simp [hin] at hnil
-    · refine ⟨rfl, rfl, rfl, rfl, rfl, ?_, ?_⟩
+    · rw [hin] at hin'
+      simp [FnArg.stripAttrs] at hin'
+      obtain ⟨⟨_, rfl, rfl⟩, hrest⟩ := hin'
+      refine ⟨rfl, rfl, rfl, rfl, rfl, ?_, ?_, ?_⟩
       · simp [hne, hn]
-      · refine ⟨r, ?_⟩
+      · refine ⟨refOf ty, ?_⟩
         simp only [fixParams_cons_recv, Sig.userParams, hn, Bool.false_eq_true, if_false]
-        rw [hin] at hin' ⊢
-        simp at hin'
-        simp [hin'.2]
+        rw [hin]
+        simp [hrest]
+      · simp only [fixParams_cons_recv, List.head?_cons, expectedReceiver, hn, Bool.false_eq_true, if_false, hin]
+        cases ty <;> rfl
   · have hdn := analyzeFnDeps_noDeps hd hn
     subst hdn
     rcases generateParams_selfRef hg with ⟨_, rfl⟩ | ⟨hne, _, _⟩ | ⟨hne, _⟩
-    · refine ⟨rfl, rfl, rfl, rfl, rfl, ?_, ?_⟩
+    · refine ⟨rfl, rfl, rfl, rfl, rfl, ?_, ?_, ?_⟩
       · simp [hn]
       · exact ⟨some none, by simp [fixParams_cons_recv, Sig.userParams, hn]⟩
+      · simp [fixParams_cons_recv, expectedReceiver, hn]
     · exact absurd rfl hne
     · exact absurd rfl hne
 
